@@ -34,7 +34,7 @@ ASSUMPTIONS = ["subscription identity = (service, instance, major version, event
 FLOORS = {"quick": {"histories": 25000, "exhaustive_core_histories": 20000, "random_histories": 3000, "idle_truth_checks": 250000,
                     "alternation_events": 50000, "acks_judged": 80000, "positive_acks": 40000, "negative_acks": 15000,
                     "rejected_subscriptions": 5000, "policy_changes": 3000, "same_iteration_placements": 20000, "deadline_before_placements": 4000,
-                    "deadline_after_placements": 4000, "reboot_with_subscribe_messages": 3000, "twin_listener_scenarios": 700, "twin_listener_events": 8000,
+                    "deadline_after_placements": 4000, "reboot_with_subscribe_messages": 3000, "twin_listener_scenarios": 700, "messages_packed_into_one_datagram": 5000, "twin_listener_events": 8000,
                     "mesh_scenarios": 100, "mesh_final_checks_offerer": 90, "mesh_alternation_events": 600}}
 # system-level shards: the mesh workload of pv/mesh.py under this property's boundary monitors (reports of other monitors are dropped)
 MESH = {"want": ("converge",), "claim": ("mesh:offerer-does-not-converge", "mesh:subscription-listener-history"),
@@ -190,7 +190,12 @@ class Run:
         ann = self.prot.announcer
         k = a["kind"]
         if k == "msg":
-            self.prot.datagram_received(a["data"], SUBS[a["sub"]], a["mc"])
+            if a.get("packed") == "first":
+                self._held = a["data"]
+            elif a.get("packed") == "second":
+                self.prot.datagram_received(bytes(self._held) + bytes(a["data"]), SUBS[a["sub"]], a["mc"])
+            else:
+                self.prot.datagram_received(a["data"], SUBS[a["sub"]], a["mc"])
         elif k == "policy":
             (self.policy.add if a["reject"] else self.policy.discard)(a["tag"])
         elif k == "svc_stop":
@@ -242,6 +247,14 @@ class Run:
 
         h.at(0.0, setup)
         h.loop.idle_hooks.append(self.on_idle)
+        # two messages one subscriber sends in the same instant over the same channel travel in ONE datagram in half of the cases
+        # (several SOME/IP messages per UDP frame are legal): they are handled in wire order all the same
+        for i in range(len(self.script) - 1):
+            (t1, r1, a1), (t2, r2, a2) = self.script[i], self.script[i + 1]
+            if a1["kind"] == a2["kind"] == "msg" and (t1, r1) == (t2, r2) and not a1.get("hops") and not a2.get("hops") \
+                    and a1["sub"] == a2["sub"] and a1["mc"] == a2["mc"] and not a1.get("packed") and i % 2 == 0:
+                a1["packed"], a2["packed"] = "first", "second"
+                self.stats["messages_packed_into_one_datagram"] = self.stats.get("messages_packed_into_one_datagram", 0) + 2
         for t, rank, a in self.script:
             h.at(t, self.do, a, rank=rank, hops=a.get("hops", 0))
         h.run(horizon)
